@@ -85,6 +85,26 @@ func (sc *specCtx) lookup(name string) (*val, error) {
 	if v, ok := sc.args[name]; ok {
 		return v, nil
 	}
+	if sc.fc != nil && sc.atBlock != nil && sc.args == nil {
+		// loop-carried variables of the enclosing loops (innermost first)
+		var best *ssa.BasicBlock
+		var bestV *val
+		for h, names := range sc.fc.loopNames {
+			v, ok := names[name]
+			if !ok || h == sc.atBlock {
+				continue
+			}
+			if !loopBlocks(h)[sc.atBlock] {
+				continue
+			}
+			if best == nil || best.Dominates(h) {
+				best, bestV = h, v
+			}
+		}
+		if bestV != nil {
+			return bestV, nil
+		}
+	}
 	sig := sc.fn.Signature
 	if sc.results != nil {
 		if name == "result" && len(sc.results) >= 1 {
@@ -112,7 +132,7 @@ func (sc *specCtx) lookup(name string) (*val, error) {
 				// free variables are pointers to the captured variable
 				pv := sc.fc.vals[p]
 				if pt, ok := p.Type().(*types.Pointer); ok {
-					return sc.fc.loadH(sc.h, pt.Elem(), pv.t[0], pv.t[1], sc.guard), nil
+					return sc.fc.loadH(sc.h, pt.Elem(), pv.t[0], pv.t[1], sc.ag()), nil
 				}
 				return pv, nil
 			}
@@ -123,7 +143,7 @@ func (sc *specCtx) lookup(name string) (*val, error) {
 				lb := bs[i]
 				if sc.atBlock == nil || lb.b == sc.atBlock || lb.b.Dominates(sc.atBlock) {
 					if lb.isAddr {
-						return sc.fc.loadH(sc.h, lb.ty, lb.v.t[0], lb.v.t[1], sc.guard), nil
+						return sc.fc.loadH(sc.h, lb.ty, lb.v.t[0], lb.v.t[1], sc.ag()), nil
 					}
 					return lb.v, nil
 				}
@@ -155,8 +175,8 @@ func (sc *specCtx) objVal(obj types.Object) (*val, error) {
 		return sc.constVal(o.Val(), o.Type())
 	case *types.Var:
 		ref := sc.g.w.globalRef(o.Pkg().Path() + "." + o.Name())
-		v := sc.fc.loadH(sc.h, o.Type(), ref, z64, sc.guard)
-		if types.IsInterface(o.Type()) && strings.HasPrefix(o.Name(), "Err") {
+		v := sc.fc.loadH(sc.h, o.Type(), ref, z64, sc.ag())
+		if isErrorType(o.Type()) {
 			sc.g.assume(fmt.Sprintf("(not (= %s 0))", v.t[0]))
 		}
 		return v, nil
@@ -306,7 +326,7 @@ func (sc *specCtx) ev(e ast.Expr) (*val, error) {
 		if !ok || b.k != kPtr {
 			return nil, fmt.Errorf("deref of non-pointer")
 		}
-		return sc.fc.loadH(sc.h, pt.Elem(), b.t[0], b.t[1], sc.guard), nil
+		return sc.fc.loadH(sc.h, pt.Elem(), b.t[0], b.t[1], sc.ag()), nil
 	case *ast.IndexExpr:
 		b, err := sc.ev(x.X)
 		if err != nil {
@@ -372,7 +392,7 @@ func (sc *specCtx) field(b *val, name string) (*val, error) {
 		f := st.Field(i)
 		if f.Name() == name {
 			if isPtr {
-				return sc.fc.loadH(sc.h, f.Type(), b.t[0], addOff(b.t[1], fieldOff(st, i)), sc.guard), nil
+				return sc.fc.loadH(sc.h, f.Type(), b.t[0], addOff(b.t[1], fieldOff(st, i)), sc.ag()), nil
 			}
 			if b.k == kStruct {
 				return b.elems[i], nil
@@ -382,7 +402,7 @@ func (sc *specCtx) field(b *val, name string) (*val, error) {
 			// one level of promotion through embedded structs
 			var inner *val
 			if isPtr {
-				inner = sc.fc.loadH(sc.h, f.Type(), b.t[0], addOff(b.t[1], fieldOff(st, i)), sc.guard)
+				inner = sc.fc.loadH(sc.h, f.Type(), b.t[0], addOff(b.t[1], fieldOff(st, i)), sc.ag())
 			} else if b.k == kStruct {
 				inner = b.elems[i]
 			}
@@ -412,7 +432,7 @@ func (sc *specCtx) index(b, idx *val) (*val, error) {
 		if es != 1 {
 			off = fmt.Sprintf("(bvadd %s (bvmul %s %s))", b.t[1], i64, bv(64, uint64(es)))
 		}
-		return sc.fc.loadH(sc.h, et, b.t[0], off, sc.guard), nil
+		return sc.fc.loadH(sc.h, et, b.t[0], off, sc.ag()), nil
 	case kArr:
 		return &val{k: kInt, w: 8, ty: types.Typ[types.Uint8], t: []string{arrByte(b, i64)}}, nil
 	case kPtr:
@@ -420,7 +440,7 @@ func (sc *specCtx) index(b, idx *val) (*val, error) {
 			if at, ok := pt.Elem().Underlying().(*types.Array); ok {
 				es := slots(at.Elem())
 				off := fmt.Sprintf("(bvadd %s (bvmul %s %s))", b.t[1], i64, bv(64, uint64(es)))
-				return sc.fc.loadH(sc.h, at.Elem(), b.t[0], off, sc.guard), nil
+				return sc.fc.loadH(sc.h, at.Elem(), b.t[0], off, sc.ag()), nil
 			}
 		}
 	}
@@ -725,9 +745,24 @@ func (sc *specCtx) call(x *ast.CallExpr) (*val, error) {
 							if err != nil {
 								return nil, err
 							}
-							return sc.fc.pureCall(fn, as, sc.h, sc.guard), nil
+							return sc.fc.pureCall(fn, as, sc.h, sc.ag()), nil
 						}
 					}
+				}
+			}
+		}
+	}
+	if se, ok := x.Fun.(*ast.SelectorExpr); ok {
+		// method call on a value: recv.M(args) with M pure
+		if recv, err := sc.ev(se.X); err == nil && recv.ty != nil {
+			obj, _, _ := types.LookupFieldOrMethod(recv.ty, true, sc.pkg(), se.Sel.Name)
+			if mf, ok := obj.(*types.Func); ok {
+				if fn := g.w.prog.FuncValue(mf); fn != nil {
+					as, err := evArgs()
+					if err != nil {
+						return nil, err
+					}
+					return sc.fc.pureCall(fn, append([]*val{recv}, as...), sc.h, sc.ag()), nil
 				}
 			}
 		}
@@ -864,6 +899,27 @@ func (sc *specCtx) call(x *ast.CallExpr) (*val, error) {
 			return nil, fmt.Errorf("%s is not loop-carried", vi.Name)
 		}
 		return &val{k: kBool, t: []string{fmt.Sprintf("(or (= %s %s) (>= %s %s))", cur.t[0], ent.t[0], cur.t[0], sc.fc.loopEntryAC[sc.loopHdr])}}, nil
+	case "sameobj":
+		// sameobj(a, b): the two references designate (parts of) the same allocated object
+		as, err := evArgs()
+		if err != nil {
+			return nil, err
+		}
+		refOf := func(v *val) (string, bool) {
+			switch v.k {
+			case kPtr, kSlice, kOpaque:
+				return v.t[0], true
+			case kIface:
+				return v.t[1], true
+			}
+			return "", false
+		}
+		ra, ok1 := refOf(as[0])
+		rb, ok2 := refOf(as[1])
+		if !ok1 || !ok2 {
+			return nil, fmt.Errorf("sameobj expects references")
+		}
+		return &val{k: kBool, t: []string{fmt.Sprintf("(= %s %s)", ra, rb)}}, nil
 	case "unchanged":
 		// unchanged(p): the object p points to has the same contents as at entry
 		as, err := evArgs()
@@ -899,7 +955,7 @@ func (sc *specCtx) call(x *ast.CallExpr) (*val, error) {
 						}
 					}
 				}
-				return sc.fc.pureCall(fn, as, sc.h, sc.guard), nil
+				return sc.fc.pureCall(fn, as, sc.h, sc.ag()), nil
 			}
 		}
 	}
@@ -919,4 +975,13 @@ func (sc *specCtx) eqBytes(a, b *val) (*val, error) {
 	rb := fmt.Sprintf("(select (select %s %s) (bvadd %s %s))", sc.h["HB"], b.t[0], b.t[1], q)
 	return &val{k: kBool, t: []string{fmt.Sprintf("(and (= %s %s) (forall ((%s (_ BitVec 64))) (=> (and (bvsle %s %s) (bvslt %s %s)) (= %s %s))))",
 		a.t[2], b.t[2], q, z64, q, q, a.t[2], ra, rb)}}, nil
+}
+
+// ag: the guard under which assumptions created while evaluating a spec term may be asserted; inside a quantifier
+// the bound variable would escape, so no assumption is generated there.
+func (sc *specCtx) ag() string {
+	if len(sc.bound) > 0 {
+		return "#skip"
+	}
+	return sc.guard
 }
